@@ -632,7 +632,7 @@ def run_item(args):
 HEAVY = {"BioConsert", "BioConsert[Copeland]", "BioConsert[Borda]", "BioConsert[PickAPerm]", "BioConsert[KwikSort]",
          "BioConsert[KwikSort,Borda]", "BioConsert[Copeland,PickAPerm]", "BioCo", "ParCons(1,BioConsert)"}
 NAMINGS = {1: [[5], ["x"]], 2: [[1, 2], [2, 1], ["b", "a"]], 3: [[1, 2, 3], [3, 1, 2], ["b", "a", "c"]],
-           4: [[1, 2, 3, 4], [4, 2, 3, 1], ["d", "a", "c", "b"]]}
+           4: [[1, 2, 3, 4], [4, 2, 3, 1], ["d", "a", "c", "b"], ["1", "2", "3", "A"]]}
 
 
 def dataset_pool(n, m, allow_empty=False):
